@@ -1,5 +1,120 @@
-//! Worker processes for cwd-sensitive and crash-prone cases.
+//! Worker processes: cases that depend on the process cwd, or that may abort,
+//! run in single-threaded child processes of the same binary.
+//!
+//! Protocol: the parent writes one JSON case per line to a file; worker
+//! `shard` of `n` handles lines i with i % n == shard and appends to its
+//! output file a line `{"start": i}` before and `{"i": i, "out": ...}` after
+//! each case, so a worker that dies is attributed to the case in flight.
 
-pub fn main(_args: &[String]) -> ! {
-    crate::util::machinery_error("worker: not yet wired")
+use std::io::{BufRead, Write};
+use std::path::{Path, PathBuf};
+use std::process::{Command, Stdio};
+
+use serde_json::{json, Value};
+
+use crate::util;
+
+/// Run one case of the given kind in directory `dir` (private to the case).
+fn dispatch(kind: &str, case: &Value, dir: &Path) -> Value {
+    match kind {
+        "c08" => crate::props::c08::worker_case(case, dir),
+        _ => json!({"machinery_error": format!("unknown worker kind {kind}")}),
+    }
+}
+
+pub fn main(args: &[String]) -> ! {
+    let kind = &args[0];
+    let cases_file = &args[1];
+    let shard: usize = args[2].parse().unwrap();
+    let n: usize = args[3].parse().unwrap();
+    let out_file = &args[4];
+    util::capture_stdout(Some(Path::new(&format!("{out_file}.log"))));
+    let mut out = std::fs::File::create(out_file).expect("worker out");
+    let f = std::io::BufReader::new(std::fs::File::open(cases_file).expect("cases"));
+    for (i, line) in f.lines().enumerate() {
+        if i % n != shard {
+            continue;
+        }
+        let line = line.unwrap();
+        let case: Value = serde_json::from_str(&line).unwrap();
+        writeln!(out, "{}", json!({"start": i})).unwrap();
+        out.flush().unwrap();
+        let dir = util::fresh_dir("case");
+        let res = dispatch(kind, &case, &dir);
+        let _ = std::env::set_current_dir("/");
+        let _ = std::fs::remove_dir_all(&dir);
+        writeln!(out, "{}", json!({"i": i, "out": res})).unwrap();
+        out.flush().unwrap();
+    }
+    util::cleanup_scratch();
+    std::process::exit(0);
+}
+
+pub enum WorkerResult {
+    Done(Value),
+    /// The worker died (signal / abort / exit code) while this case was in flight.
+    Died(String),
+    /// The worker died before reaching this case.
+    NotRun,
+}
+
+/// Run all cases in `n_workers` child processes; results in case order.
+pub fn run_cases(kind: &str, cases: &[Value], timeout_s: u64) -> Vec<WorkerResult> {
+    let root = util::fresh_dir("workers");
+    let cases_file = root.join("cases.jsonl");
+    {
+        let mut f = std::io::BufWriter::new(std::fs::File::create(&cases_file).unwrap());
+        for c in cases {
+            writeln!(f, "{c}").unwrap();
+        }
+    }
+    let n = util::n_threads().min(cases.len().max(1));
+    let exe = std::env::current_exe().unwrap();
+    let mut children = vec![];
+    for shard in 0..n {
+        let out: PathBuf = root.join(format!("out-{shard}.jsonl"));
+        let child = Command::new(&exe)
+            .args(["worker", kind, cases_file.to_str().unwrap(), &shard.to_string(), &n.to_string(), out.to_str().unwrap()])
+            .stdin(Stdio::null())
+            .stdout(Stdio::null())
+            .stderr(Stdio::null())
+            .spawn()
+            .unwrap_or_else(|e| util::machinery_error(&format!("cannot spawn worker: {e}")));
+        children.push((child, out));
+    }
+    let deadline = std::time::Instant::now() + std::time::Duration::from_secs(timeout_s);
+    let mut results: Vec<WorkerResult> = (0..cases.len()).map(|_| WorkerResult::NotRun).collect();
+    for (mut child, out) in children {
+        let status = loop {
+            match child.try_wait() {
+                Ok(Some(s)) => break format!("{s}"),
+                Ok(None) => {
+                    if std::time::Instant::now() > deadline {
+                        let _ = child.kill();
+                        let _ = child.wait();
+                        break "timeout".to_string();
+                    }
+                    std::thread::sleep(std::time::Duration::from_millis(5));
+                }
+                Err(e) => break format!("wait error {e}"),
+            }
+        };
+        let mut in_flight: Option<usize> = None;
+        if let Ok(f) = std::fs::File::open(&out) {
+            for line in std::io::BufReader::new(f).lines().map_while(Result::ok) {
+                let Ok(v) = serde_json::from_str::<Value>(&line) else { continue };
+                if let Some(i) = v.get("start").and_then(|x| x.as_u64()) {
+                    in_flight = Some(i as usize);
+                } else if let Some(i) = v.get("i").and_then(|x| x.as_u64()) {
+                    results[i as usize] = WorkerResult::Done(v["out"].clone());
+                    in_flight = None;
+                }
+            }
+        }
+        if let Some(i) = in_flight {
+            results[i] = WorkerResult::Died(status);
+        }
+    }
+    let _ = std::fs::remove_dir_all(&root);
+    results
 }
